@@ -112,39 +112,52 @@ void obs_both(unsigned kind, const void* addr, std::uint64_t a, std::uint64_t b,
   if (sched_obs != nullptr) sched_obs(kind, addr, a, b, c);
 }
 
+// call / return markers for the fine-grained acceptor (logged through the observation hook)
+constexpr unsigned kind_call = 1000, kind_ret = 1001;
+void mark(unsigned kind, char op, std::uint64_t arg = 0) {
+  if (auto* const f = unodb::detail::verif::obs_hook.load()) f(kind, nullptr, static_cast<std::uint64_t>(op), arg, 0);
+}
+
 int run_thread(const std::string& prog, int tid) {
   ghost_tid = tid;
   bool reg = false;
-  auto start = [&] {
+  auto start = [&](char op) {
+    mark(kind_call, op);
     if (unodb::qsbr_per_thread::current_thread_instance == nullptr)
       unodb::qsbr_per_thread::current_thread_instance = std::make_unique<unodb::qsbr_per_thread>();
     else
       unodb::this_thread().qsbr_resume();
+    mark(kind_ret, op);
     g->registered.insert(tid);  // counts as registered once the call has returned
     reg = true;
   };
-  auto leave = [&] {
+  auto leave = [&](char op) {
     g->registered.erase(tid);
     passed(tid);  // at the entry of qsbr_pause()
+    mark(kind_call, op);
     unodb::this_thread().qsbr_pause();
+    mark(kind_ret, op);
     reg = false;
   };
   for (char c : prog) {
     switch (c) {
       case 'S':
-        if (!reg) start();
+        if (!reg) start('S');
         break;
       case 'Q':
         if (reg) {
           passed(tid);  // at the entry of quiescent()
           g->in_qstate.insert(tid);
+          mark(kind_call, 'Q');
           unodb::this_thread().quiescent();
+          mark(kind_ret, 'Q');
           g->in_qstate.erase(tid);
         }
         break;
       case 'R':
         if (reg) {
           void* p = unodb::detail::allocate_aligned(32);
+          mark(kind_call, 'R', reinterpret_cast<std::uint64_t>(p));
           unodb::this_thread().on_next_epoch_deallocate(p
 #ifdef UNODB_DETAIL_WITH_STATS
                                                         , 32
@@ -153,16 +166,17 @@ int run_thread(const std::string& prog, int tid) {
                                                         , nullptr
 #endif
           );
+          mark(kind_ret, 'R');
         }
         break;
       case 'P':
         if (reg) {
-          leave();
-          start();
+          leave('P');
+          start('U');
         }
         break;
       case 'E':
-        if (reg) leave();
+        if (reg) leave('E');
         break;
       case '+':
         ++g->phase;
@@ -178,7 +192,7 @@ int run_thread(const std::string& prog, int tid) {
         break;
     }
   }
-  if (reg) leave();
+  if (reg) leave('E');
   return 0;
 }
 
@@ -197,7 +211,21 @@ const char* kname(unsigned k) {
     case vk::mem_alloc: return "ALLOC";
     case vk::mem_free: return "FREE";
     case vk::mem_retire: return "RETIRE";
+    case kind_call: return "CALL";
+    case kind_ret: return "RET";
     default: return "OTHER";
+  }
+}
+
+// third column: the address for memory events, the list (0 previous, 1 current interval) for orphan list events
+std::uint64_t third(const dsched::event& e) {
+  namespace vk = dsched::vk;
+  switch (e.kind) {
+    case vk::mem_alloc: case vk::mem_free: case vk::mem_retire:
+      return reinterpret_cast<std::uint64_t>(e.addr);
+    case vk::orphan_load: case vk::orphan_cas: case vk::orphan_xchg: case vk::orphan_cas_move: case vk::orphan_append:
+      return e.addr == &unodb::qsbr::instance().orphaned_previous_interval_dealloc_requests ? 0U : 1U;
+    default: return e.c;
   }
 }
 
@@ -310,7 +338,7 @@ int main(int argc, char** argv) {
       std::puts(line.c_str());
       for (auto& e : res.log)
         std::printf("E %d %s %llx %llx %llx\n", e.tid, kname(e.kind), static_cast<unsigned long long>(e.a),
-                    static_cast<unsigned long long>(e.b), static_cast<unsigned long long>(e.c));
+                    static_cast<unsigned long long>(e.b), static_cast<unsigned long long>(third(e)));
       for (auto& p : gh.problems) std::printf("P %s\n", p.c_str());
       std::puts("Y");
     }
